@@ -888,7 +888,7 @@ class FnEmitter:
         return [p + '{'] + self.stmt(n, ind + 1) + [p + '}']
 
     def vardecl(self, v, p):
-        if v['kind'] == 'UsingDecl': return []
+        if v['kind'] in ('UsingDecl', 'StaticAssertDecl'): return []      # compile-time only
         if v['kind'] != 'VarDecl': raise Unsupported('decl ' + v['kind'])
         if v.get('storageClass') == 'static' or v.get('tls'):
             raise Unsupported('function-local static variable ' + v.get('name', ''))
@@ -1122,6 +1122,19 @@ class StdRules:
         if cty == 'struct map_slot':
             if name == 'erase':
                 em.note_call('map_slot_erase'); return f"map_slot_erase({objp}, {em.e(args[0])})"
+            if name in ('emplace', 'try_emplace') and len(args) == 2:
+                # inserts only if the key is absent (result, an iterator/bool pair, must be discarded by the caller)
+                em.note_call('map_slot_emplace'); return f"map_slot_emplace({objp}, {em.e(args[0])}, {em.addr(args[1])})"
+            if name == 'insert_or_assign' and len(args) == 2:
+                em.note_call('map_slot_insert_or_assign'); return f"map_slot_insert_or_assign({objp}, {em.e(args[0])}, {em.addr(args[1])})"
+            if name == 'count' and len(args) == 1:
+                em.note_call('map_slot_count'); return f"map_slot_count({objp}, {em.e(args[0])})"
+            if name == 'at' and len(args) == 1:
+                em.note_call('map_slot_index'); return f"(*map_slot_index({objp}, {em.e(args[0])}))"
+            if name == 'clear' and not args:
+                em.note_call('map_slot_clear'); return f"map_slot_clear({objp})"
+            if name in ('size', 'empty') and not args:
+                raise Unsupported('unordered_map::' + name + ' (the single-slot view cannot answer whole-table queries)')"
         if cty == 'struct sv':
             if name == 'size': return f"{o}.n"
             if name == 'data': return f"{o}.p"
